@@ -1,7 +1,7 @@
 import N0Verif.Proto
 import N0Verif.Val
 import N0Verif.Model.FindAll
-/-! driver operations of the `findall` model: `fa.tok`, `fa.find`, `fa.raw`, `fa.first`, `fa.hist` -/
+/-! driver operations of the `findall` model: `fa.tok`, `fa.find`, `fa.findm`, `fa.raw`, `fa.first`, `fa.hist` -/
 namespace N0.Drv.FindAll
 open N0 N0.Proto N0.FindAll
 
@@ -59,6 +59,13 @@ def handle (toks : List String) : Option String :=
       if !inScope t then some "unsupported" else
       orUnsupported (showOut (findallTop fuel fresh t e))
     | _, _ => some "bad-op"
+  | "fa.findm" :: re :: e :: rest =>
+    -- `findall(xpath, raise_exception)` (fix C19-e: the mode reaches `_findall`)
+    match parseBool re, decStr e, readVal rest with
+    | some re, some e, some (t, []) =>
+      if !inScope t then some "unsupported" else
+      orUnsupported (showOut (findallTop fuel fresh t e re))
+    | _, _, _ => some "bad-op"
   | "fa.raw" :: re :: n :: rest =>
     match parseBool re, parseNat n with
     | some re, some n =>
